@@ -15,7 +15,7 @@ import shutil
 
 import numpy as np
 
-from .. import etsim, iosim, seams_fs
+from .. import etsim, iosim, seams_fs, seams_h5
 from ..digest import Trace, digest
 
 PROP = 'C18'
@@ -43,7 +43,9 @@ PROBES = ['incremental_update', 'restart_appeared_between_calls',
           'keys_parsed', 'files_parsed', 'parameters_parsed',
           'nothing_to_process', 'writer_running_during_call',
           'checkpoints_per_proc', 'enum_permuted', 'overall_checked',
-          'group_vars_change', 'per_level_components']
+          'group_vars_change', 'per_level_components', 'io_fault_fired',
+          'io_fault_raise_accepted', 'io_fault_swallowed',
+          'call_after_io_fault_checked']
 COMPONENTS = {
     'aurel.reading.iterations/read_iterations/collect_overall_iterations/'
     'get_content/parse_hdf5_key/parse_h5file/parameters': 'real',
@@ -51,6 +53,10 @@ COMPONENTS = {
     'Einstein Toolkit / Carpet writer (second party)':
         'stub (etsim model, real HDF5 files), stepped by the scheduler',
     'glob/listdir order': 'simulated (seeded permutation)',
+    'I/O errors (EIO when a data file is opened)': 'simulated: '
+    'aurel.reading.h5py rebound to a counting proxy that fails the n-th open '
+    'inside one catalogue call in 30% of the runs; that call may raise or '
+    'skip the restart it could not read, every later call must be right',
     'set/dict order': 'real, 3 PYTHONHASHSEED classes'}
 ASSUMPTIONS = [
     'the reader follows the documented protocol: skip_last=False and '
@@ -96,6 +102,9 @@ def generate(rng, tier):
                            mixed_grouping_p=0.0, group_vars_change_p=0.3,
                            allow_stride_change=rng.chance(0.3))
     g = rng.child('ops')
+    gf = rng.child('iofaults')
+    io_faults = gf.chance(0.3)
+    cfg['io_faults'] = io_faults
     enum = {'mode': g.pick(['sorted', 'reverse', 'shuffle']),
             'seed': g.randrange(1 << 30)}
     nres = len(cfg['restarts'])
@@ -119,6 +128,13 @@ def generate(rng, tier):
         else:
             ops.append({'op': 'get_content', 'restart': g.randrange(nres),
                         'overwrite': g.chance(0.3)})
+        if io_faults and ops[-1]['op'] != 'read_iterations' \
+                and gf.chance(0.35):
+            ops[-1]['fault'] = {'kind': 'open_r', 'err': 'EIO',
+                                'at': gf.weighted([(1, 4), (2, 3), (3, 2),
+                                                   (4, 1), (6, 1)]),
+                                'when': gf.weighted([('before', 3),
+                                                     ('after', 1)])}
     return {'config': cfg, 'enum': enum, 'ops': ops,
             'final': {'parse': True, 'parameters': True, 'fresh': True}}
 
@@ -140,6 +156,9 @@ def simplify(run):
         c = copy.deepcopy(run); c['config']['simname'] = 'sim'; yield c
     if cfg['simpath'] != 'S/':
         c = copy.deepcopy(run); c['config']['simpath'] = 'S/'; yield c
+    for i, o in enumerate(run['ops']):
+        if o.get('fault'):
+            c = copy.deepcopy(run); del c['ops'][i]['fault']; yield c
     for k in ('parse', 'parameters', 'fresh'):
         if run['final'][k]:
             c = copy.deepcopy(run); c['final'][k] = False; yield c
@@ -217,6 +236,11 @@ def expected_overall(sim, restarts):
 
 
 def execute(run):
+    with seams_h5.h5_faults() as plan:
+        return _execute(run, plan)
+
+
+def _execute(run, plan):
     import h5py
     import aurel
     import aurel.reading as rd
@@ -253,10 +277,16 @@ def execute(run):
     ops = list(run['ops']) + [{'op': 'writer', 'finish': True},
                               {'op': 'iterations', 'skip_last': False}]
     nontrivial_flag = False
+    after_fault = False
 
-    def check_catalogue(res, where, opi, expect_restarts):
+    def check_catalogue(res, where, opi, expect_restarts, maybe=()):
         nonlocal checked
         got_rs = sorted(k for k in res if k != 'overall')
+        if maybe and set(expect_restarts) <= set(got_rs) \
+                <= set(expect_restarts) | set(maybe):
+            # after a call that hit an I/O error the file may or may not
+            # hold the restarts that call was working on
+            expect_restarts = got_rs
         if got_rs != expect_restarts:
             viol.append({'sig': 'catalogue:restart_set', 'op': opi,
                          'msg': f'{where}: covers restarts {got_rs}, '
@@ -303,11 +333,23 @@ def execute(run):
             if kind == 'iterations':
                 skip = op['skip_last']
                 before_seen = set(cat.seen)
-                vis = cat.call(started, skip)
+                vis = cat.peek(started, skip)
+                plan.arm(op.get('fault'))
                 try:
                     res = aurel.iterations(param, skip_last=skip,
                                            verbose=False)
+                    fired = plan.disarm()
+                except seams_h5.InjectedIOError:
+                    plan.disarm()
+                    fault('io_fault_fired')
+                    probe('io_fault_raise_accepted')
+                    after_fault = True
+                    cat.call(started, skip, failed=True)
+                    tr.event('iterations', outcome='injected')
+                    continue
                 except ImportError as e:
+                    plan.disarm()
+                    vis = cat.call(started, skip)
                     tr.event('iterations', outcome='ImportError')
                     if vis:
                         viol.append({
@@ -319,6 +361,12 @@ def execute(run):
                         probe('nothing_to_process')
                     continue
                 except Exception as e:  # noqa: BLE001
+                    if plan.disarm() is not None:
+                        fault('io_fault_fired')
+                        probe('io_fault_raise_accepted')
+                        after_fault = True
+                        cat.call(started, skip, failed=True)
+                        continue
                     viol.append({
                         'sig': f'iterations:raised:{type(e).__name__}:'
                                f'{iosim.aurel_site(e)}', 'op': opi,
@@ -328,6 +376,31 @@ def execute(run):
                                f'{type(e).__name__}: {e}'})
                     continue
                 tr.event('iterations', result=digest(_norm(res)))
+                if fired is not None:
+                    # carried on after the error: this call may lack the
+                    # restart(s) it could not read - and only those
+                    fault('io_fault_fired')
+                    probe('io_fault_swallowed')
+                    after_fault = True
+                    got_rs = sorted(k for k in res if k != 'overall')
+                    if not set(got_rs) <= set(vis):
+                        viol.append({'sig': 'catalogue:restart_set', 'op': opi,
+                                     'msg': f'op#{opi} iterations() after an '
+                                            f'I/O error covers {got_rs}, '
+                                            f'complete restarts are {vis}'})
+                    for r in got_rs:
+                        if r in vis:
+                            compare_entry(res[r], expected_restart_entry(
+                                sim, cfg, r), f'op#{opi} iterations() (I/O '
+                                f'error in this call) restart {r}', viol, opi)
+                    cat.call(started, skip, failed=True)
+                    cat.seen |= set(got_rs) & set(vis)
+                    cat.maybe -= cat.seen
+                    started_at_last_call = len(started)
+                    continue
+                vis = cat.call(started, skip)
+                if after_fault:
+                    probe('call_after_io_fault_checked')
                 if before_seen and set(vis) - before_seen:
                     fault('incremental_update')
                     nontrivial_flag = True
@@ -378,6 +451,7 @@ def execute(run):
                 existed = os.path.isfile(sim.simdir + '/iterations.txt')
                 vis = cat.call(started, True) if not existed else sorted(
                     cat.seen)
+                maybe = sorted(cat.maybe) if existed else []
                 try:
                     back = rd.read_iterations(param)
                 except ImportError:
@@ -401,16 +475,30 @@ def execute(run):
                     continue
                 tr.event('read_iterations', result=digest(_norm(back)))
                 probe('read_iterations_file')
-                check_catalogue(back, f'op#{opi} read_iterations()', opi, vis)
+                check_catalogue(back, f'op#{opi} read_iterations()', opi, vis,
+                                maybe)
             elif kind == 'get_content':
                 r = op['restart']
                 if r not in sim.restarts_finished:
                     continue          # protocol: completed restarts only
+                plan.arm(op.get('fault'))
                 try:
                     res = aurel.get_content(param, restart=r,
                                             overwrite=op['overwrite'],
                                             verbose=False)
+                    if plan.disarm() is not None:
+                        fault('io_fault_fired')
+                        probe('io_fault_swallowed')
+                        after_fault = True
+                    elif after_fault:
+                        probe('call_after_io_fault_checked')
                 except Exception as e:  # noqa: BLE001
+                    if plan.disarm() is not None:
+                        fault('io_fault_fired')
+                        probe('io_fault_raise_accepted')
+                        after_fault = True
+                        tr.event('get_content', outcome='injected')
+                        continue
                     viol.append({
                         'sig': f'get_content:raised:{type(e).__name__}',
                         'op': opi,
